@@ -44,6 +44,8 @@ Eigen::Array<double, N, 1> spectrum(const std::string& pat, vt::Rng& r, bool all
 {
    Eigen::Array<double, N, 1> d;
    for (int i = 0; i < N; ++i) d(i) = r.logu(0.5, 50) * (allow_neg && r.coin() ? -1 : 1);
+   if (pat == "allpos") d = d.abs();
+   if (pat == "allneg" && allow_neg) d = -d.abs();
    if (pat == "double") d(1) = d(0);
    if (pat == "triple") for (int i = 1; i < N && i < 3; ++i) d(i) = d(0);
    if (pat == "allequal") for (int i = 1; i < N; ++i) d(i) = d(0);
